@@ -80,7 +80,7 @@ var zzTemplates = []string{
 	"call-callee", "call-arg", "call-spread", "member", "deref", "addr-deref",
 	"for-in", "switch-subject", "switch-case", "if-cond", "loop-cond", "ternary-cond",
 	"make-len", "chan-send-value", "chan-recv", "close", "delete-item", "delete-key", "throw",
-	"assign-source", "item-assign-target", "defer-callee", "array-elem", "map-value", "map-key", "return",
+	"assign-source", "multi-assign-source", "var-multi-source", "item-assign-target", "defer-callee", "array-elem", "map-value", "map-key", "return",
 }
 
 func zzTemplate(e *env.Env, t string, x ast.Expr) ast.Stmt {
@@ -181,6 +181,12 @@ func zzTemplate(e *env.Env, t string, x ast.Expr) ast.Stmt {
 		return &ast.ThrowStmt{Expr: x}
 	case "assign-source":
 		return &ast.LetsStmt{LHSS: []ast.Expr{zzIdent("zzt")}, RHSS: []ast.Expr{x}}
+	case "multi-assign-source":
+		return &ast.StmtsStmt{Stmts: []ast.Stmt{&ast.LetsStmt{LHSS: []ast.Expr{zzIdent("zzm1"), zzIdent("zzm2")}, RHSS: []ast.Expr{x}},
+			ex(&ast.ArrayExpr{Exprs: []ast.Expr{&ast.NilCoalescingOpExpr{LHS: zzIdent("zzm1"), RHS: zzLit("unset")}, &ast.NilCoalescingOpExpr{LHS: zzIdent("zzm2"), RHS: zzLit("unset")}}})}}
+	case "var-multi-source":
+		return &ast.StmtsStmt{Stmts: []ast.Stmt{&ast.VarStmt{Names: []string{"zzm1", "zzm2"}, Exprs: []ast.Expr{x}},
+			ex(&ast.ArrayExpr{Exprs: []ast.Expr{&ast.NilCoalescingOpExpr{LHS: zzIdent("zzm1"), RHS: zzLit("unset")}, &ast.NilCoalescingOpExpr{LHS: zzIdent("zzm2"), RHS: zzLit("unset")}}})}}
 	case "item-assign-target":
 		return &ast.LetsStmt{LHSS: []ast.Expr{&ast.ItemExpr{Item: x, Index: zzLit(int64(0))}}, RHSS: []ast.Expr{one}}
 	case "defer-callee":
